@@ -718,6 +718,7 @@ class Origin:
         self.unknown = False
         self.upvars = set()
         self.index_locals = set()  # locals used as `[i]` index on the way
+        self.upvar_names = set()  # captured variables read (closures / coroutines), e.g. `start_seq`, `self__savepoints`
 
     def call_names(self):
         s = set()
@@ -759,6 +760,15 @@ def origin_of_operand(body, op, through_calls=True, max_steps=4000, stop_calls=(
         for p in pl[1:]:
             if isinstance(p, list) and p[0] == "i":
                 o.index_locals.add(p[1])
+        if pl[0] == 1 and body.kind in ("closure", "coroutine"):
+            fidx = [p[1] for p in pl[1:] if isinstance(p, list) and p[0] == "f"]
+            for nm, upl in body.raw.get("upvars", []):
+                uf = [p[1] for p in upl[1:] if isinstance(p, list) and p[0] == "f"]
+                if uf and fidx[:len(uf)] == uf:
+                    o.upvar_names.add(nm)
+                    parts = nm.split("__")
+                    for comp in parts[1:]:
+                        o.fields.add(("<captured %s>" % parts[0], comp))
         # field selection directly on the local (before any deref): `_t.1`, `(_e as Some).0`
         sel = None
         for p in pl[1:]:
